@@ -77,15 +77,16 @@ pub fn io_write_def<S: Src, const BIG: bool>(s: &mut S) {
     crate::cover!(s, l == 1, "one byte");
 }
 
-/// decoders: on the bytes of the definition, vbyte_read_* and the generic entry point return the value
+/// decoders: vbyte_read_* and the generic entry point invert the encoders (whose bytes are the definition's,
+/// by c18_io_write_*) and consume exactly the codeword
 pub fn io_read_def<S: Src, const BIG: bool>(s: &mut S) {
     let v = s.u64();
-    let l = spec::vbyte_bytes(v);
-    let mut bytes = [0u8; 12];
-    macro_rules! f { ($($i:literal)*) => { $( if $i < l { bytes[$i] = spec::vbyte_byte(v, BIG, $i); } )* }; }
-    f!(0 1 2 3 4 5 6 7 8 9);
+    let mut sink = FixedSink { bytes: [0; 12], n: 0 };
+    let n = if BIG { ok(vbyte_write_be(v, &mut sink)) } else { ok(vbyte_write_le(v, &mut sink)) };
+    assert!(n.is_some());
+    let l = sink.n;
     let generic = s.bool();
-    let mut src = FixedSource { bytes, len: l, pos: 0 };
+    let mut src = FixedSource { bytes: sink.bytes, len: l, pos: 0 };
     let back = match (BIG, generic) {
         (true, false) => ok(vbyte_read_be(&mut src)),
         (false, false) => ok(vbyte_read_le(&mut src)),
